@@ -398,6 +398,18 @@ def run_check(modname, tier, base_seed=None, jobs=None, runs=None):
             rec = make_replay(mod, small_case, small_viol, original=case)
             path = write_replay(prop, rec)
             ok, msg = verify_replay(prop, path)
+            if not ok and "identical_record=False" in msg:
+                # the failure reproduces on its own, but details of the record depended on what the worker process had
+                # executed before (state kept by the library across calls): the record of a fresh interpreter is the
+                # reference from here on, and must itself be reproducible
+                got = probe_replay(prop, {"property": prop, "case": small_case, "violation": {k_: small_viol.get(k_) for k_ in ("class", "clause", "key")}})
+                if got is not None:
+                    got = dict(got)
+                    got.setdefault("key", small_viol.get("key", {}))
+                    small_viol = got
+                    rec = make_replay(mod, small_case, small_viol, original=case)
+                    path = write_replay(prop, rec)
+                    ok, msg = verify_replay(prop, path)
         except HarnessError as e:
             msg = str(e)
         except Exception:
